@@ -75,7 +75,16 @@ def gen_hints(rng):
         elif k == "mut":
             out.append(mutate(rng, valid_direct(rng)))
         elif k == "relay":
-            out.append({"type": "relay-v1", "hints": [rng.choice([valid_direct(rng), mutate(rng, valid_direct(rng))]) for _ in range(rng.randint(0, 3))]})
+            def sub():
+                h = rng.choice([valid_direct(rng), mutate(rng, valid_direct(rng))])
+                if rng.random() < 0.3:
+                    # the same shapes under the other TCP hint type (one parser, two types)
+                    h = dict(h, type="tor-tcp-v1")
+                return h
+            out.append({"type": "relay-v1", "hints": [sub() for _ in range(rng.randint(0, 3))]})
+            if rng.random() < 0.5:
+                # a second, well-formed relay with another priority to be ordered against the first
+                out.append({"type": "relay-v1", "hints": [dict(valid_direct(rng), priority=rng.choice([0.0, 2.0, 7]))]})
         elif k == "relay-bad":
             h = {"type": "relay-v1"}
             c = rng.choice(["missing", "notlist", "nonobj", "nested", "prio"])
@@ -92,7 +101,10 @@ def gen_hints(rng):
             t = random_tree(rng)
             out.append(t if isinstance(t, dict) else {"type": t})
         elif k == "tor":
-            out.append({"type": "tor-tcp-v1", "priority": 1.0, "hostname": "abc.onion", "port": rng.randint(1, 65535)})
+            t = {"type": "tor-tcp-v1", "priority": 1.0, "hostname": "abc.onion", "port": rng.randint(1, 65535)}
+            if rng.random() < 0.5:
+                t = dict(mutate(rng, t), type="tor-tcp-v1")
+            out.append(t)
         else:
             host = rng.choice(HOSTS[:3])
             for p in rng.sample([None, "a", 1, 2.5, [1], {"x": 1}, True], 3):
